@@ -8,7 +8,14 @@
 //!   and strictly sequential writes through a second, lagging instance.
 //! * `conc`: 2-3 concurrent calls on one key, interleaved at every backend call (RecStore gate
 //!   below the wrapper + manual executor; DFS within a budget, random beyond), judged against the
-//!   set of linearizations.
+//!   set of linearizations; the same call sets also run on a multi-thread runtime (S-mt).
+//!
+//! Candidate finding kept as an oracle (signature `C07/{meta,enc}/concurrent/
+//! read_not_found_while_key_is_overwritten`): a `get`/`head` that overlaps TWO completed
+//! overwrites of its key returns `NotFound` although the key existed throughout. Sequence:
+//! put(k,v0); reader resolves pointer v0; put(k,v1) commits and reclaims gen v0; reader's payload
+//! read misses, re-resolves (once) to v1; put(k,v2) commits and reclaims gen v1; reader's second
+//! payload read misses -> `NotFound` (get_opts retries only once; InMemory never does this).
 
 use anda_object_store::{EncryptedStoreBuilder, MetaStoreBuilder};
 use bytes::Bytes;
